@@ -473,7 +473,12 @@ SPECS = [
                               dict(dom='cn2', a=[1.0, 1.0]), dict(dom='ud3', a=2.0),
                               dict(dom='pw_rn2_2', a=3.0), dict(dom='R', a=2.0),
                               dict(dom='C', a=[0.0, 1.0]), dict(dom='rn3wa', a=2.0),
-                              dict(dom='pw_cn2_2w', a=[1.0, -1.0])],
+                              dict(dom='pw_cn2_2w', a=[1.0, -1.0]),
+                              # magnitude regimes: a tiny (but non-zero) imaginary part, a tiny and a
+                              # huge factor - exact comparisons in the class must not become
+                              # tolerance-based ones
+                              dict(dom='cn2', a=[2.0, 2.0 ** -30]), dict(dom='cn2', a=[0.0, 2.0 ** -30]),
+                              dict(dom='rn3', a=2.0 ** -30), dict(dom='cn2', a=[2.0 ** 30, 1.0])],
           lambda o: odl.ScalingOperator(_sp(o['dom']), complex(*o['a']) if isinstance(o['a'], list)
                                         else o['a'])),
     OSpec('IdentityOperator', [dict(dom='rn3'), dict(dom='cn2'), dict(dom='pw_rn2_2'),
